@@ -600,6 +600,23 @@ def execute_reenter(program, ctx, mode):
                             S.queryMultiAdapter((ob,), P0, bad if bad is not None else b'x')
                 except ValueError:
                     pass
+        # ... and calls that fail while probing the caches: an unhashable `provided` (TypeError in both implementations)
+        for _ in range(20):
+            try:
+                if entry == 'lookup':
+                    S.lookup((R1,), [], '')
+                elif entry == 'lookup1':
+                    S.lookup1(R1, [], '')
+                elif entry == 'lookupAll':
+                    S.lookupAll((R1,), [])
+                elif entry == 'subscriptions':
+                    S.subscriptions((R1,), [])
+                elif entry == 'queryAdapter':
+                    S.queryAdapter(ob, [], '')
+                elif entry == 'adapter_hook':
+                    S.adapter_hook([], ob, '')
+            except TypeError:
+                pass
         after = [sys.getrefcount(x) for x in watched]
         ctx.probe('refbalance-checked')
         for nm, b_, a_ in zip(('required', 'provided', 'object', 'registry', 'default', 'None', 'empty-tuple'), before, after):
